@@ -243,3 +243,13 @@ pub fn wire_ty(t: u16) -> &'static str {
 pub fn daemon_alive_at_end(tr: &Trace, d: usize) -> bool {
     tr.final_phase.get(d).map(|s| s == "parked").unwrap_or(false)
 }
+
+/// The start jitter the daemon of DUT d draws for a registration consumed at (world) time t.
+pub fn jitter_at(scn: &Scenario, d: usize, t: u64) -> u64 {
+    if let Some(seed) = scn.sched.jitter_time_seed {
+        let off = scn.duts.get(d).map(|c| c.epoch_off).unwrap_or(0);
+        let now = (crate::world::T0 as i64 + t as i64 + off) as u64;
+        return crate::rng::mix(seed, now) % 250;
+    }
+    scn.params.get("jitter").and_then(|v| v.as_u64()).unwrap_or(0)
+}
